@@ -420,9 +420,11 @@ def gen_htmlish(rng, root="html", lead_comment=False):
             return E(rng.choice(["b", "i", "span", "em"]), *seq(d + 1, 1 + rng.randrange(2)))
         if r < 0.88:
             return E("input", a=[["type", "checkbox"]] + rng.sample([["checked", "checked"], ["disabled", ""], ["readonly", "READONLY"], ["name", "n"]], rng.choice([1, 2])))
-        if r < 0.94:
+        if r < 0.90:
             return C(rng.choice(COMMENTS[:4]))
-        return E("nonhtml", T("x"), a=[["href", "café"]])
+        if rng.random() < 0.5:
+            return E("nonhtml", T("x"), a=[["href", "café"]])
+        return E("c", T(rng.choice(["1 < 2 & 3 > 2", "x", "a ]]> b"])))      # the name the option vectors list in cdata-section-elements
 
     def seq(d, n):
         out = []
